@@ -41,12 +41,13 @@ Proof. exact norm_endpoint_idem. Qed.
 Theorem C13_normal_form_sorted : forall k i rs, model_interval k i = Some rs -> sorted_ranges rs = true.
 Proof. exact model_interval_sorted. Qed.
 
-(* the string rendering read back (partial: endpoints; whole seconds for times - the six fraction
-   digits are covered by C13_fraction_digits; complete interval strings and date-times are
-   decided by the correspondence run only) *)
-Theorem C13_time_string_roundtrip_partial : forall h m s, valid_time [h; m; s; 0] = true ->
-  parse_time_str (render_time [h; m; s; 0]) = Some [h; m; s; 0].
-Proof. exact time_string_roundtrip. Qed.
+(* the string rendering read back: str(time) of EVERY valid time of day (whole seconds by a finite
+   sweep over the 86 400 values, the six fraction digits and the splitting at the decimal point
+   in general); every day of the leap year; complete interval strings and date-times are decided
+   by the correspondence run only *)
+Theorem C13_time_string_roundtrip : forall h m s u, valid_time [h; m; s; u] = true ->
+  parse_time_str (render_time [h; m; s; u]) = Some [h; m; s; u].
+Proof. exact time_string_roundtrip_full. Qed.
 
 Theorem C13_fraction_digits : forall u, 0 <= u <= 999999 -> frac_us (dec_fixed 6 u) = u.
 Proof. exact frac_us_dec_fixed. Qed.
@@ -67,7 +68,7 @@ Print Assumptions C13_datetime_never_wraps.
 Print Assumptions C13_endpoint_full_length.
 Print Assumptions C13_endpoint_idempotent.
 Print Assumptions C13_normal_form_sorted.
-Print Assumptions C13_time_string_roundtrip_partial.
+Print Assumptions C13_time_string_roundtrip.
 Print Assumptions C13_fraction_digits.
 Print Assumptions C13_date_string_roundtrip.
 Print Assumptions C13_month_names_any_case.
